@@ -363,6 +363,10 @@ func main() {
 					if _, err := strconv.ParseInt(v, 10, 64); err != nil && v != "null" {
 						h.Violate(fmt.Sprintf("numeric parameter %s=%q accepted", k, v))
 					}
+				case "reconnect":
+					if v != "true" && v != "false" {
+						h.Violate(fmt.Sprintf("boolean parameter reconnect=%q accepted (only the spellings true and false are valid)", v))
+					}
 				}
 			}
 		}
